@@ -70,6 +70,7 @@ class RowCollector:
 
         :param values: List of values for each column
         """
+        created = False
         if isinstance(values,dict):
             missing = [key for key in values.keys() if key not in self._columns]
             if missing:
@@ -77,19 +78,27 @@ class RowCollector:
                     raise Exception('Missing columns:', missing)
                 else:
                     self._append_columns(missing)
+                    created = True
             values = [values[name] for name in self._columns]
         if len(values)!=len(self._columns):
             raise Exception(f"Row has {len(values)} values but the collector has {len(self._columns)} columns:", values)
         if self._array:
             new = []    # every cell is cast before any column changes: a refused row leaves the collector as it was
-            for n, name in enumerate(self._columns):
-                data = getattr(self,name)
-                # a column declared with dtype=str starts as '<U1': the width has to follow the text that arrives
-                dtype = None if data.dtype.kind in 'US' else data.dtype
-                cell = np.array(values[n],dtype=dtype)
-                if cell.ndim:  # np.append would flatten it and the columns would no longer be equally long
-                    raise Exception(f"Value of column '{name}' is not a single value:", values[n])
-                new.append(cell)
+            try:
+                for n, name in enumerate(self._columns):
+                    data = getattr(self,name)
+                    # a column declared with dtype=str starts as '<U1': the width has to follow the text that arrives
+                    dtype = None if data.dtype.kind in 'US' else data.dtype
+                    cell = np.array(values[n],dtype=dtype)
+                    if cell.ndim:  # np.append would flatten it and the columns would no longer be equally long
+                        raise Exception(f"Value of column '{name}' is not a single value:", values[n])
+                    new.append(cell)
+            except Exception:
+                if created:    # the columns were made for this very row
+                    for name in self._columns:
+                        delattr(self,name)
+                    self._columns = []
+                raise
             for n, name in enumerate(self._columns):
                 setattr(self,name, np.append(getattr(self,name),new[n]) )
         else:
